@@ -117,12 +117,14 @@ def eq_hash_ord(ctx, prog, tyname):
     ctx.ob(R, "%s PartialOrd::partial_cmp = Some(self.cmp(other))" % tyname, ok, show(e)[:120], fpc.loc())
 
 
-def len_index_symmetry(ctx, prog):
+def len_index_symmetry(ctx, prog, scope=None, floor=30):
     """inside any function: a slice of O.blockhashK bounded by O.len_blockhashJ requires K == J; a call receiving views
     of blockhashK and len_blockhashJ of the same object requires K == J"""
     F.doc_fields(ctx)
     n = 0
     for f in prog.fns:
+        if not F.in_scope(f, scope):
+            continue
         sy = None
         for i, t in f.calls():
             c = callee_of(t)
@@ -165,4 +167,4 @@ def len_index_symmetry(ctx, prog):
                         for g in ga:
                             ctx.ob(R, "%s: call %s const generic %s matches the field index" % (f.short, nm, g), g[-1] in idx and len(idx) == 1,
                                    "fields %s with %s" % (names, g), f.loc(t["sp"]))
-    ctx.floor(R, n, 30, "indexed-field pairings inside one object")
+    ctx.floor(R, n, floor, "indexed-field pairings inside one object%s" % ("" if scope is None else " in scope"))
